@@ -287,8 +287,10 @@ class Analyzer:
             ctor = s.name.endswith('.__init__')
             return self.apply_summary(s, ([EMPTY] if ctor else []) + args, kws, e, ([None] if ctor else []) + argnodes, ctor=ctor)
         if d is not None and (d in self.env or d.split('.')[0] in self.env):
-            self.sum.external.append(f'{d}() [callable argument: assumed pure with a fresh result]')
-            return EMPTY
+            # a caller-supplied function: assumed not to modify its arguments; its result is memory owned by the caller
+            # (it may be a view of the argument or of the callback's own state) -- pseudo-parameter '<result of f()>'
+            self.sum.external.append(f'{d}() [callable argument: assumed not to modify its arguments]')
+            return AV({(f'<result of {d}()>', True)}) | AV({(p, False) for p, c in allr})
         self.sum.external.append(f'{d}() [unknown: assumed pure, result may alias arguments]')
         return AV({(p, False) for p, c in allr})
 
@@ -566,9 +568,22 @@ def check_frame(mod, qual, modifies=(), fresh_result=False, result_may_share=())
                 if q not in modifies and q in s.params and q not in result_may_share:
                     out.append((f'no_capture[{q}->{p}]', 'refuted' if c else 'undecided',
                                 f'memory of parameter {q} becomes reachable from the overwritten parameter {p}'))
+    cb = [(p, ws) for p, ws in s.writes.items() if p.startswith('<result of ')]
+    if any(p.startswith('<result of ') for p in list(s.writes) + [q for p, c in s.ret.r for q in [p]]) or any('callable argument' in x for x in s.external):
+        bad = [f'{p} written at line {ln}: {how}' for p, ws in cb for c, ln, how in ws if c]
+        may = [f'{p} written at line {ln}: {how}' for p, ws in cb for c, ln, how in ws if not c]
+        if bad:
+            out.append(('callback_result_not_modified_in_place', 'refuted', 'definite-write: ' + '; '.join(bad[:3]) +
+                        ' (the array returned by a caller-supplied function may be a view of its argument or of the caller\'s state)'))
+        elif may:
+            out.append(('callback_result_not_modified_in_place', 'undecided', 'may-write: ' + '; '.join(may[:3])))
+        else:
+            out.append(('callback_result_not_modified_in_place', 'discharged', 'no in-place update reaches an array returned by a caller-supplied function'))
+    if qual.endswith('.__init__') and 'self' in modifies and not any(n.startswith('no_capture') for n, _, _ in out):
+        out.append(('no_capture', 'discharged', 'no caller-owned list/array becomes reachable from the constructed object'))
     if fresh_result:
-        al_c = sorted({p for p, c in s.ret.r if c and p not in result_may_share})
-        al_m = sorted({p for p, c in s.ret.r if not c and p not in result_may_share} - set(al_c))
+        al_c = sorted({p for p, c in s.ret.r if c and p not in result_may_share and p in s.params})
+        al_m = sorted({p for p, c in s.ret.r if not c and p not in result_may_share and p in s.params} - set(al_c))
         if al_c:
             out.append(('fresh_result', 'refuted', f'the returned object shares memory with parameter(s) {al_c}'))
         elif al_m:
